@@ -65,6 +65,12 @@ def body(ctx: H.BaseCtx):
             got = {tuple(o.names) for o in outs}
             if len(got) != 1:
                 ctx.fail("align", "names differ after %s: %s" % (case["fn"], sorted(got)))
+            elif want and not (case.get("options") or {}).get("retain_names", True):
+                # under the global retain_names=False the shape step may already have dropped names no operand uses (the documented
+                # effect of that option, C15): the common tuple must then be an index-ordered part of the union
+                g = sorted(got)[0]
+                if g not in accept and [x for x in want if x in g] != list(g):
+                    ctx.fail("align", "names %s are not an index-ordered part of the union %s" % (g, want))
             elif want and not got <= accept:
                 ctx.fail("align", "names %s, expected union in index order %s" % (sorted(got)[0], want))
         if aligns_exps:
@@ -97,7 +103,7 @@ def run_case(case: Dict) -> Dict:
             if a not in atoms:
                 atoms.append(a)
     lim = case.get("limits", {})
-    return H.explore_case(case, body, atoms, max_paths=lim.get("max_paths", 2000), time_budget=lim.get("time", 60.0))
+    return H.explore_case(case, body, atoms, max_paths=lim.get("max_paths", 2000), time_budget=lim.get("time", 60.0), options=case.get("options"))
 
 
 def gen_cases(tier: str, seed: int) -> List[Dict]:
@@ -140,7 +146,12 @@ def gen_cases(tier: str, seed: int) -> List[Dict]:
                         operands.append(S.make_numeric_spec("abcd"[i], "scalar", (), rng, 1))
                 # the non-shape aligners keep each operand's own shape: any shapes are fine
                 n += 1
-                cases.append({"id": "%s-%03d-%s" % (PROP, n, fn), "op": fn, "fn": fn, "operands": operands, "limits": lim})
+                # alignment passes its retain flags explicitly, so the global retain options must not change what it returns
+                opt = rng.choice([{}, {}, {"retain_names": False}, {"retain_coefficients": True}, {"retain_names": False, "retain_coefficients": True}])
+                if not opt.get("retain_names", True):
+                    # a cleaned input would itself lose its unused names under this setting: build raw
+                    operands = [dict(o, mode="raw") if o.get("kind", "poly") == "poly" else o for o in operands]
+                cases.append({"id": "%s-%03d-%s" % (PROP, n, fn), "op": fn, "fn": fn, "operands": operands, "options": opt, "limits": lim})
     # already aligned arguments (internal aliasing possible)
     for fn in FUNCS:
         names = ("q0", "q1")
